@@ -1,11 +1,11 @@
-\* exhaustive: methods x statuses x classes, up to three calls, submissions repeated up to twice
+\* exhaustive: methods x statuses x classes, up to three calls, submissions repeated once
 CONSTANTS
   Statuses = {200, 204, 301, 400, 404, 429, 500}
   RetryStatuses = {408, 429, 503}
-  RetryBodies = {"valid", "notJSON"}
-  UndecodableBodies = {"wrongType", "empty", "truncatedJSON"}
+  RetryBodies = {"valid"}
+  UndecodableBodies = {"wrongType"}
   AfterRetryStatuses = {200, 204, 301, 400, 404, 500}
-  MaxAnswers = 3
+  MaxAnswers = 2
   MaxCalls = 3
   CarryLayers = {"http", "json", "signed"}
 INIT Init
